@@ -16,15 +16,18 @@ import (
 	"errors"
 	"fmt"
 	"io"
+	"io/fs"
 	"os"
 	"os/exec"
 	"reflect"
+	"strings"
 	"sync"
 	"time"
 
 	"github.com/vimeo/dials"
 	"github.com/vimeo/dials/common"
 	"github.com/vimeo/dials/ptrify"
+	"github.com/vimeo/dials/sources/static"
 	"github.com/vimeo/dials/sourcewrap"
 	"github.com/vimeo/dials/tagformat"
 	cc "github.com/vimeo/dials/tagformat/caseconversion"
@@ -62,7 +65,8 @@ type childResult struct {
 // ---------------- scripted inner source ----------------
 
 type fakeSrc struct {
-	priming   bool // answering for another config type before the case proper: zero value, nothing recorded
+	priming   bool  // answering for another config type before the case proper: zero value, nothing recorded
+	err       error // what a failing Value / Watch returns
 	failValue bool
 	failWatch bool
 	first     func(t reflect.Type) reflect.Value
@@ -76,7 +80,7 @@ func (f *fakeSrc) Value(_ context.Context, t *dials.Type) (reflect.Value, error)
 		return reflect.New(t.Type()).Elem(), nil
 	}
 	if f.failValue {
-		return reflect.Value{}, errors.New("inner source failed on purpose")
+		return reflect.Value{}, f.err
 	}
 	return f.first(t.Type()), nil
 }
@@ -88,12 +92,61 @@ func (f *fakeWatcher) Watch(_ context.Context, t *dials.Type, args dials.WatchAr
 		return nil
 	}
 	if f.failWatch {
-		return errors.New("inner watch failed on purpose")
+		return f.err
 	}
 	f.typ = t.Type()
 	f.args = args
 	close(f.ready)
 	return nil
+}
+
+// failure draws the error of a failing inner source / decoder: a plain error or
+// one of the sentinels callers test for, bare or wrapped.
+func failure(state uint64) (err, base error) {
+	r := coqfmt.NewRng(state ^ 0x5e171e1)
+	bases := []error{errors.New("inner failed on purpose"), io.EOF, io.ErrUnexpectedEOF, fs.ErrNotExist, context.Canceled,
+		context.DeadlineExceeded, os.ErrPermission}
+	base = bases[r.Intn(len(bases))]
+	if r.Chance(1, 2) {
+		return fmt.Errorf("reading the inner configuration: %w", base), base
+	}
+	return base, base
+}
+
+// failDec is a decoder that fails.
+type failDec struct{ err error }
+
+func (d *failDec) Decode(io.Reader, *dials.Type) (reflect.Value, error) {
+	return reflect.Value{}, d.err
+}
+
+// decoderFailure: a failing inner decoder behind NewTransformingDecoder fails
+// exactly as it does unwrapped, and the cause stays reachable.
+func decoderFailure[T any](ctx context.Context, in input, ms []transform.Mangler, pt reflect.Type, translatable bool) (direct []string) {
+	defer func() {
+		if r := recover(); r != nil {
+			direct = append(direct, fmt.Sprintf("transforming decoder around a failing decoder panicked: %v", r))
+		}
+	}()
+	err, base := failure(in.State)
+	_, native := dials.Config(ctx, new(T), &static.StringSource{Data: "x", Decoder: &failDec{err}})
+	_, wrapped := dials.Config(ctx, new(T), &static.StringSource{Data: "x", Decoder: sourcewrap.NewTransformingDecoder(&failDec{err}, ms...)})
+	if native == nil {
+		direct = append(direct, "reference: Config with a failing decoder succeeded")
+	}
+	if wrapped == nil {
+		direct = append(direct, fmt.Sprintf("Config succeeds with a transforming decoder around a decoder that fails with %q (unwrapped it fails)", err))
+	}
+	if translatable {
+		_, derr := sourcewrap.NewTransformingDecoder(&failDec{err}, ms...).Decode(strings.NewReader("x"), dials.NewType(pt))
+		switch {
+		case derr == nil:
+			direct = append(direct, fmt.Sprintf("transforming decoder returned no error although the inner decoder failed with %q", err))
+		case !errors.Is(derr, base):
+			direct = append(direct, fmt.Sprintf("transforming decoder's error %q does not wrap the inner decoder's %q", derr, base))
+		}
+	}
+	return direct
 }
 
 // ---------------- one case ----------------
@@ -169,7 +222,11 @@ func runCase[T any](in input) childResult {
 	}
 
 	var wrappedErrs, refErrs errLog
-	inner := &fakeWatcher{fakeSrc: fakeSrc{failValue: in.Inner == 1, failWatch: in.Inner == 3, ready: make(chan struct{})}}
+	innerErr, _ := failure(in.State)
+	inner := &fakeWatcher{fakeSrc: fakeSrc{err: innerErr, failValue: in.Inner == 1, failWatch: in.Inner == 3, ready: make(chan struct{})}}
+	if in.Inner == 1 {
+		res.Direct = append(res.Direct, decoderFailure[T](ctx, in, xf.Manglers(chain), pt, tto.Class() == "ok")...)
+	}
 	var seenType reflect.Type // the type the inner source is asked about
 	inner.first = func(tt reflect.Type) reflect.Value { seenType = tt; return mkFill(tt).V }
 	var innerSrc dials.Source = inner
@@ -600,7 +657,7 @@ func main() {
 	}
 	driver.Main(driver.Engine{
 		Prop: "C20", CoqImport: "Dials.Check.C20Check", CoqRun: "run_cases",
-		Rule: "twelve static config types (nesting by value and pointer to depth 4, aliases on leaves and struct-typed fields at every level incl. family-specific alias tags, embedded value and pointer structs, []struct / [2]struct / map[string]struct with nested element structs, sets of strings / ints / named strings, named slices and maps, user pointers to scalars / slices / maps, arrays, complex, TextUnmarshaler; two types with a Verify method that rejects part of the update values: pointer and value receiver) (nesting by value/pointer, embedded value/pointer, alias tags on leaves and structs, sets, maps, []struct, [2]struct, durations, named scalars, TextUnmarshaler) x random defaults x a mangler chain from C10's generator (shipped chains, mixed chains, sub-chains) x inner source: static (1/10), failing Value (1/10), watching whose Watch fails (1/10), watching with 1-5 updates (7/10; one update in five is made un-reversible on purpose when the chain allows it: both names of an aliased field set, or an unparsable text, so sequences mix reversible and un-reversible values), each update a random filling of the translated type reported through ReportNewValue or BlockingReportNewValue; the value returned by every (Blocking)ReportNewValue is compared with the model (a blocking report returns the verdict of its own re-stack) and with the natively fed Dials, the View is read immediately after a blocking report returned and again after the update settled; after every step the View is compared with a reference Dials fed the already-unmangled value and with the model (reverse-translate, then stack onto the defaults); one case in eight builds the wrapper with tagformat.ReformatDialsTagSource (DecodeGoTags, each of the six encoders) instead of sourcewrap.NewTransformingSource; one case in four REUSES the wrapper instance: it is first asked for the Value, the Watch or both of ANOTHER config type of the palette and must then behave for the case's type exactly as a fresh wrapper (same model outcome, same reference Dials); non-trivial: watching inner source with >= 2 updates; distinct = distinct PRNG case states; every case runs in a child process",
+		Rule: "twelve static config types (nesting by value and pointer to depth 4, aliases on leaves and struct-typed fields at every level incl. family-specific alias tags, embedded value and pointer structs, []struct / [2]struct / map[string]struct with nested element structs, sets of strings / ints / named strings, named slices and maps, user pointers to scalars / slices / maps, arrays, complex, TextUnmarshaler; two types with a Verify method that rejects part of the update values: pointer and value receiver) (nesting by value/pointer, embedded value/pointer, alias tags on leaves and structs, sets, maps, []struct, [2]struct, durations, named scalars, TextUnmarshaler) x random defaults x a mangler chain from C10's generator (shipped chains, mixed chains, sub-chains) x inner source: static (1/10), failing Value (1/10; the error is a plain one or a sentinel - io.EOF, io.ErrUnexpectedEOF, fs.ErrNotExist, context.Canceled, DeadlineExceeded, os.ErrPermission - bare or wrapped; the same failure is also put behind NewTransformingDecoder: Config must fail as it does unwrapped and the cause stay reachable), watching whose Watch fails (1/10), watching with 1-5 updates (7/10; one update in five is made un-reversible on purpose when the chain allows it: both names of an aliased field set, or an unparsable text, so sequences mix reversible and un-reversible values), each update a random filling of the translated type reported through ReportNewValue or BlockingReportNewValue; the value returned by every (Blocking)ReportNewValue is compared with the model (a blocking report returns the verdict of its own re-stack) and with the natively fed Dials, the View is read immediately after a blocking report returned and again after the update settled; after every step the View is compared with a reference Dials fed the already-unmangled value and with the model (reverse-translate, then stack onto the defaults); one case in eight builds the wrapper with tagformat.ReformatDialsTagSource (DecodeGoTags, each of the six encoders) instead of sourcewrap.NewTransformingSource; one case in four REUSES the wrapper instance: it is first asked for the Value, the Watch or both of ANOTHER config type of the palette and must then behave for the case's type exactly as a fresh wrapper (same model outcome, same reference Dials); non-trivial: watching inner source with >= 2 updates; distinct = distinct PRNG case states; every case runs in a child process",
 		Gen:  gen, Run: run,
 	})
 	if cur != nil {
